@@ -6,7 +6,7 @@
 (* binary search agrees with the definition; every explored transition prints its history for replay.             *)
 EXTENDS MapSlabTree, MapDict, Json
 
-CONSTANTS Keys, KSz, VSizes, MaxKeys, EmitEdges, WithReads
+CONSTANTS Keys, KSz, VSizes, MaxKeys, EmitEdges, EmitOneIn, WithReads
 
 VARIABLES tree, dict, nextId, hist, res
 mvars == <<tree, dict, nextId, hist, res>>
@@ -15,7 +15,8 @@ Dig(k) == <<k * 10, k % 3, k % 2, 0>>
 KeysSeq == [k \in 1..Cardinality(Keys) |-> Dig(k)]
 StoredV(v) == IF v > MaxInlineMapValue(T, KSz) THEN SlabIDStorableSize ELSE v
 Elem(k, vsz) == [d |-> Dig(k)[1], key |-> k, sz |-> SingleElementPrefix + KSz + StoredV(vsz)]
-Emit(h) == IF EmitEdges THEN PrintT(ToJson(h)) ELSE TRUE
+\* EmitOneIn > 1: print only a random sample of the explored transitions (the value of the conjunct is TRUE either way)
+Emit(h) == IF EmitEdges /\ (EmitOneIn <= 1 \/ RandomElement(1..EmitOneIn) = 1) THEN PrintT(ToJson(h)) ELSE TRUE
 Step(o) == hist' = Append(hist, o) /\ Emit(hist')
 
 Init == tree = EmptyTree /\ dict = <<>> /\ nextId = 1 /\ hist = << <<"dig">> \o KeysSeq >> /\ res = MOk(0, FALSE)
